@@ -4,8 +4,9 @@ from the seed-matrix TSV files (tools/seed_matrix.sh).  Round 1: /tmp/seed/out (
 patch3, patch4); benign refactorings: /tmp/seed/out3 (kept under seeded/benign/)."""
 import json, os, re, shutil, glob
 DST = "/verif/seeded"
-ROUNDS = [("/tmp/seed/out", ["/tmp/seed/confirm1.log", "/tmp/seed/confirm2.log"], ["/verif/out/matrix_full.tsv", "/verif/out/old/matrix*.tsv", "/verif/out/matrix_fix*.tsv"], 0),
-          ("/tmp/seed/out2", ["/tmp/seed/confirm_r2a.log", "/tmp/seed/confirm_r2b.log"], ["/verif/out/matrix_r2*.tsv"], 2)]
+ROUNDS = [("/tmp/seed/out", ["/tmp/seed/confirm1.log", "/tmp/seed/confirm2.log"], ["/verif/out/matrix_r1_final.tsv"], 0),
+          ("/tmp/seed/out2", ["/tmp/seed/confirm_r2a.log", "/tmp/seed/confirm_r2b.log"], ["/verif/out/matrix_r2_final.tsv"], 2),
+          ("/tmp/seed/out4", ["/tmp/seed/confirm_r3a.log", "/tmp/seed/confirm_r3b.log"], ["/verif/out/matrix_r3_final.tsv"], 4)]
 
 
 def parse_conf(logs):
@@ -55,9 +56,9 @@ for SRC, logs, mats, off in ROUNDS:
         meta = json.load(open(mp)) if os.path.exists(mp) else {"property": pid, "changes": {}}
         dd = det.get((pid, n), {})
         meta["changes"]["patch%d" % k] = {
-            "breaks_property": pid, "round": 1 if off == 0 else 2, "summary": notes.get("summary"), "needs_to_manifest": notes.get("needs_to_manifest"), "files": notes.get("files"),
+            "breaks_property": pid, "round": 1 + off // 2, "summary": notes.get("summary"), "needs_to_manifest": notes.get("needs_to_manifest"), "files": notes.get("files"),
             "written_by": "independent sub-agent given only the property text and a scratch worktree",
-            "confirmed_by_me": {"command": "tools/confirm_seed.sh %s %d (scratch worktree /tmp/seed/%s: git apply; pytest -q -x; demo; git checkout; demo)" % (pid, n, pid), **c},
+            "confirmed_by_me": {"command": "SEED_OUT=%s tools/confirm_seed.sh %s %d (scratch worktree /tmp/seed/%s: git apply; pytest -q -x; demo; git checkout; demo)" % (SRC, pid, n, pid), **c},
             "checks_run_against_it": dd,
         }
         json.dump(meta, open(mp, "w"), indent=1)
@@ -81,7 +82,7 @@ for (rid, n), dd in sorted(ben.items()):
     brow.append((rid, n, (notes.get("summary") or "")[:140].replace("|", "/").replace("\n", " "), ", ".join("%s(exit %s%s)" % (kk, v["exit"], ", %d inconclusive" % v["inconclusive"] if v["inconclusive"] else "") for kk, v in sorted(dd.items()))))
 
 with open(os.path.join(DST, "MATRIX.md"), "w") as f:
-    f.write("# Seeded changes x checks (quick tier)\n\nEach seeded change passes the 99-test suite; its demonstration fails with it and passes without (patch1/2: first round, patch3/4: second round of independent sub-agents).\n\n| seed | what it changes | checks run (result) | caught |\n|---|---|---|---|\n")
+    f.write("# Seeded changes x checks (quick tier)\n\nEach seeded change passes the 99-test suite; its demonstration fails with it and passes without (patch1/2: first round, patch3/4: second round, patch5/6: third round of independent sub-agents).\n\n| seed | what it changes | checks run (result) | caught |\n|---|---|---|---|\n")
     for r in rows:
         f.write("| %s/patch%d | %s | %s | %s |\n" % r)
     n_c = sum(1 for r in rows if r[4].startswith("yes"))
